@@ -334,7 +334,7 @@ func (p c17) Exec(w *e.World, st *e.Step) *e.Violation {
 		pre := len(w.BlockTxs)
 		govPass(w, []sdk.Msg{&feemarkettypes.MsgUpdateParams{Authority: e.ModuleAddr(govtypes.ModuleName).String(), Params: fp}})
 		for i := pre; i < len(w.BlockRes); i++ {
-			rec(3_000_000, w.BlockRes[i])
+			rec(w.DefaultGas(), w.BlockRes[i])
 		}
 	case "tx":
 		a, b := w.Acct(st.A), w.Acct(st.B)
